@@ -12,6 +12,7 @@ import (
 	"regexp"
 	"runtime"
 	"runtime/debug"
+	"sort"
 	"strings"
 	"syscall"
 	"time"
@@ -80,6 +81,68 @@ func hostileCorpus(seed int64) ([][]byte, map[string]reflect.Type) {
 		[]byte{0x79, 0x71, 0x06, '[', 'i', 'n', 't', '6', '4', 0x51, 0x90},             // list holding [int64 holding the list
 	)
 	return out, tm
+}
+
+func hstr(s string) []byte {
+	if len(s) < 32 {
+		return append([]byte{byte(len(s))}, s...)
+	}
+	return append([]byte{'S', byte(len(s) >> 8), byte(len(s))}, s...)
+}
+
+// cyclicDirected: messages <<variable list: a container holding itself; X>> where X refers to that
+// container (or to itself) from a field of every registered struct, from the key, value or element
+// position of a typed map / list of every registered name.
+func cyclicDirected(tm map[string]reflect.Type) [][]byte {
+	preludes := [][]byte{
+		{0x48, 0x01, 0x61, 0x51, 0x91, 0x5a}, // map with itself as value (ordinal 1: the outer list is 0)
+		{0x48, 0x51, 0x91, 0x91, 0x5a},       // map with itself as key
+		{0x79, 0x51, 0x91},                   // list holding itself
+	}
+	names := make([]string, 0, len(tm))
+	for n := range tm {
+		names = append(names, n)
+	}
+	sort.Strings(names)
+	var out [][]byte
+	wrap := func(p, x []byte) {
+		m := append([]byte{0x57}, p...)
+		m = append(m, x...)
+		out = append(out, append(m, 0x5a))
+	}
+	for _, p := range preludes {
+		for _, n := range names {
+			t := tm[n]
+			ref := []byte{0x51, 0x91}
+			wrap(p, append(append(append([]byte{'M'}, hstr(n)...), ref...), append(ref, 0x5a)...))
+			wrap(p, append(append(append([]byte{'M'}, hstr(n)...), 0x01, 'a'), append(ref, 0x5a)...))
+			wrap(p, append(append(append([]byte{'M'}, hstr(n)...), ref...), 0x91, 0x5a))
+			wrap(p, append(append([]byte{0x71}, hstr(n)...), ref...))
+			wrap(p, append(append(append([]byte{'V'}, hstr(n)...), 0x92), append(ref, ref...)...))
+			if t.Kind() != reflect.Struct || t.NumField() == 0 || t.NumField() > 15 {
+				continue
+			}
+			def := append([]byte{'C'}, hstr(n)...)
+			def = append(def, byte(0x90+t.NumField()))
+			for i := 0; i < t.NumField(); i++ {
+				def = append(def, hstr(t.Field(i).Name)...)
+			}
+			for _, target := range [][]byte{ref, {0x51, 0x92}} { // the cyclic container / the object itself
+				for i := 0; i <= t.NumField(); i++ { // i == NumField: every field
+					x := append(append([]byte{}, def...), 0x60)
+					for j := 0; j < t.NumField(); j++ {
+						if j == i || i == t.NumField() {
+							x = append(x, target...)
+						} else {
+							x = append(x, 'N')
+						}
+					}
+					wrap(p, x)
+				}
+			}
+		}
+	}
+	return out
 }
 
 func runHostileCorpus(seed int64, out string) {
@@ -310,6 +373,11 @@ func runHostile(seed int64, tier, vectors, out string, shards, only int) {
 		}
 		items = append(items, item{b, -1, "rand", "", 0})
 	}
+	// (4) a container that contains itself, referred to from every typed position the type map offers
+	_, tmKnown := hostileCorpus(seed)
+	for _, b := range cyclicDirected(tmKnown) {
+		items = append(items, item{b, -1, "cyclic", "known", 0})
+	}
 	wk := startWorker(seed)
 	n, crashes, hangs := 0, 0, 0
 	distinct := map[string]bool{}
@@ -330,6 +398,10 @@ func runHostile(seed int64, tier, vectors, out string, shards, only int) {
 			continue
 		}
 		expanded = append(expanded, it)
+		if it.src == "cyclic" { // typed positions exist only with the type map that knows the names
+			combos = append(combos, [2]int{i % len(hostileAPIs), 1})
+			continue
+		}
 		combos = append(combos, [2]int{i % len(hostileAPIs), (i / len(hostileAPIs)) % 2})
 	}
 	items = expanded
